@@ -43,17 +43,26 @@ def task(i, fail, callno, *, equilibrium, psi, f_R, f_Z, tag):
         from func_timeout import FunctionTimedOut
 
         raise FunctionTimedOut("task %d of call %d timed out" % (i, callno))
+    if fail == 3:
+        # an exception that the standard pickle cannot serialise (class local to a function, as
+        # FunctionTimedOut carrying a nested function is in the library) but dill can
+        class LocalError(Exception):
+            pass
+
+        raise LocalError("task %d of call %d failed with an unpicklable exception" % (i, callno))
     if fail:
         raise ValueError("task %d of call %d failed" % (i, callno))
     return ("r", callno, i, tag, psi(i, 0.5))
 
 
 def calls_args(calls):
-    """calls: list of (n, fails); fails holds task indices that raise ValueError, or
-    negative numbers -(i+1) for tasks that raise FunctionTimedOut"""
+    """calls: list of (n, fails); fails holds task indices that raise ValueError, negative
+    numbers -(i+1) for tasks that raise FunctionTimedOut, or 1000+i for tasks that raise an
+    exception the standard pickle cannot serialise"""
     out = []
     for c, (n, fails) in enumerate(calls):
-        out.append([(i, 2 if -(i + 1) in fails else (1 if i in fails else 0), c) for i in range(n)])
+        out.append([(i, 2 if -(i + 1) in fails else (3 if (1000 + i) in fails else (1 if i in fails else 0)), c)
+                    for i in range(n)])
     return out
 
 
@@ -207,6 +216,8 @@ def failsets(n, maxfail):
         out += list(itertools.combinations(range(n), k))
     # a single task that times out (FunctionTimedOut, a BaseException) at each position
     out += [(-(i + 1),) for i in range(n)]
+    # a single task raising an exception that does not survive multiprocessing's pickling
+    out += [(1000 + i,) for i in range(n)]
     return out
 
 
@@ -273,7 +284,10 @@ def run(ctx):
                 nw, calls, d = res["cell"]
                 anyfail = any(f for _, f in calls)
                 timeout_kind = any(x < 0 for _, f in calls for x in f)
-                if b["kind"] == "blocked" and timeout_kind:
+                unpicklable_kind = any(x >= 1000 for _, f in calls for x in f)
+                if b["kind"] == "blocked" and unpicklable_kind:
+                    sig = "task raises an exception the standard pickle cannot serialise | parent blocks forever on result_queue.get"
+                elif b["kind"] == "blocked" and timeout_kind:
                     sig = "task raises FunctionTimedOut (BaseException) | parent blocks forever on result_queue.get"
                 elif b["kind"] == "blocked" and anyfail:
                     sig = "task raises | parent blocks forever on result_queue.get"
